@@ -424,7 +424,8 @@ tp_task_enable(tp_task_p tptask, int enable) {
 		if (0 != error)
 			return (error);
 	}
-	error = tpt_ev_enable_args1(enable, tptask->event, &tptask->tp_data);
+	error = tpt_ev_enable_args(enable, tptask->event,
+	    tptask->event_flags, 0, 0, &tptask->tp_data);
 	if (0 != error) {
 		debugd_break();
 		tpt_ev_enable_args1(0, TP_EV_TIMER, &tptask->tp_timer);
@@ -477,7 +478,8 @@ tp_task_handler_post_int(tp_event_p ev, tp_task_p tptask, int cb_ret) {
 	}
 	if (0 != (tptask->event_flags & TP_F_DISPATCH) ||
 	    TP_EV_TIMER == ev->event) {
-		tpt_ev_q_enable_args1(1, tptask->event, &tptask->tp_data);
+		tpt_ev_q_enable_args(1, tptask->event, tptask->event_flags,
+		    0, 0, &tptask->tp_data);
 	}
 }
 
